@@ -139,6 +139,14 @@ int disasm_propeller2(
       need_effect = 2;
     }
 
+    if (wcz == 1 && table_propeller2[n].wcz == 0)
+    {
+      // One of the two bits is part of the opcode (rdpin has Z always set).
+      wcz = 0;
+      wc = table_propeller2[n].wc;
+      wz = table_propeller2[n].wz;
+    }
+
     if (table_propeller2[n].wc == 0) { wc = 0; }
     if (table_propeller2[n].wz == 0) { wz = 0; }
     if (table_propeller2[n].wcz == 0) { wcz = 0; }
